@@ -31,7 +31,7 @@ namespace {
         explicit ValD( int64_t u ) : Val( u ) {}
         ValD( ValD const& o ) : Val( o ) {}
         ValD& operator=( ValD const& o ) { Val::operator=( o ); return *this; }
-        ~ValD() { uid = -99; pay = 0xDEADDEADDEADDEADull; }
+        ~ValD() { uid = -99; pay = 0xDEADDEADDEADDEADull; poison_barrier(); }
     };
     struct ResetCleaner { void operator()( Val& v ) const { v.uid = 0; v.pay = 0xC1EA4EDull; } };
 
